@@ -1,6 +1,7 @@
 package main
 
 import (
+	"fmt"
 	"go/ast"
 	"go/types"
 )
@@ -9,7 +10,7 @@ func init() {
 	register(&propDef{
 		id: "C33", title: "Relocation accounts for every item and runs once per departure",
 		technique: "lockset + test-and-insert rule on the job table, guard dominance (dispatch only by the winner of beginRelocation), release pairing on error edges, who-may-call on job release, path rule for the worker (every exit releases the job; at most one failure event)",
-		explanation: "Decides: (1) the relocation job table is accessed only under its mutex and beginRelocation is a test-and-insert in one critical section; (2) a Rebalance is dispatched to the relocator only on the edge where beginRelocation returned true; the losing edge returns without dispatch or RelocationStarted event; a failed dispatch releases the job again; (3) endRelocation is called only by the worker's finish, the worker's stopping-system exit, the relocator's abort path and the two dispatch error edges; every exit of relocationWorker.relocate reaches finish or endRelocation exactly once; (4) one relocate/abort path publishes at most one RelocationFailed event, built from the merged failure set; (5) worker death: the relocator aborts only when the registered job is the dead worker's own snapshot (pointer identity). Added after seed C33a: on completion and on abort the departed node's stored snapshot is deleted before the relocation job is released.",
+		explanation: "Decides: (1) the relocation job table is accessed only under its mutex and beginRelocation is a test-and-insert in one critical section; (2) a Rebalance is dispatched to the relocator only on the edge where beginRelocation returned true; the losing edge returns without dispatch or RelocationStarted event; a failed dispatch releases the job again; (3) endRelocation is called only by the worker's finish, the worker's stopping-system exit, the relocator's abort path and the two dispatch error edges; every exit of relocationWorker.relocate reaches finish or endRelocation exactly once; (4) one relocate/abort path publishes at most one RelocationFailed event, built from the merged failure set; (5) worker death: the relocator aborts only when the registered job is the dead worker's own snapshot (pointer identity). Added after seed C33a: on completion and on abort the departed node's stored snapshot is deleted before the relocation job is released. Added after seed C33b: every site that builds a peers address from a PeerState for use as a key (job registry, store, events) builds it with net.JoinHostPort; a differently formatted string may only be logged.",
 		assumptions: []string{"'every relocated item ends up running on exactly one survivor' is a distributed outcome", "per-item accounting inside enqueueRelocation/relocateShare is covered only through the shared failure collector"},
 		minObl:     18,
 		run:        runC33,
@@ -190,6 +191,108 @@ func runC33(c *Ctx) {
 		}
 	})
 
+	c.Rule("address-key", func() {
+		// The relocation job registry, the peer-state store and the relocation events are keyed by the departed node's
+		// peers address. Every place that builds that key from a PeerState builds it the same way (net.JoinHostPort:
+		// "[::1]:9000" for an IPv6 host), or the relocator looks a job up under a key nobody registered. A differently
+		// formatted string is tolerated only when it goes nowhere but into log calls.
+		n := 0
+		for _, rel := range []string{"actor", "internal/cluster"} {
+			pk := c.pkg(rel)
+			info := pk.TypesInfo
+			isGetter := func(nd ast.Node, name string) bool {
+				call, ok := nd.(*ast.CallExpr)
+				if !ok {
+					return false
+				}
+				cal := callee(info, call)
+				if cal == nil || cal.Name() != name {
+					return false
+				}
+				sig := cal.Type().(*types.Signature)
+				nt := namedOf(sig.Recv().Type())
+				return nt != nil && nt.Obj().Name() == "PeerState"
+			}
+			for _, file := range pk.Syntax {
+				for _, d := range file.Decls {
+					fd, ok := d.(*ast.FuncDecl)
+					if !ok || fd.Body == nil {
+						continue
+					}
+					var stack []ast.Node
+					ast.Inspect(fd.Body, func(nd ast.Node) bool {
+						if nd == nil {
+							stack = stack[:len(stack)-1]
+							return true
+						}
+						stack = append(stack, nd)
+						if !isGetter(nd, "GetHost") {
+							return true
+						}
+						// lowest enclosing call that also contains GetPeersPort
+						for i := len(stack) - 2; i >= 0; i-- {
+							call, ok := stack[i].(*ast.CallExpr)
+							if !ok || !containsNode(call, func(m ast.Node) bool { return isGetter(m, "GetPeersPort") }) {
+								continue
+							}
+							n++
+							cal := callee(info, call)
+							key := "combine@" + funcNameOfDecl(info, fd)
+							where := c.P.Pos(call.Pos())
+							switch {
+							case cal != nil && qualifiedName(cal) == "net.JoinHostPort":
+								c.Ok(key, "host and peers port are combined with net.JoinHostPort", where)
+							case cal != nil && isLoggerMethod(cal):
+								c.Ok(key+"/log", "host and port are only printed", where)
+							default:
+								// a formatted string: every use of the local it is assigned to must be an argument of a log call
+								onlyLogged := false
+								if i > 0 {
+									if as, ok := stack[i-1].(*ast.AssignStmt); ok && len(as.Lhs) == 1 {
+										if o := objOf(info, as.Lhs[0]); o != nil {
+											onlyLogged = true
+											var st2 []ast.Node
+											ast.Inspect(fd.Body, func(m ast.Node) bool {
+												if m == nil {
+													st2 = st2[:len(st2)-1]
+													return true
+												}
+												st2 = append(st2, m)
+												id, ok := m.(*ast.Ident)
+												if !ok || info.Uses[id] != o {
+													return true
+												}
+												logged := false
+												for j := len(st2) - 2; j >= 0; j-- {
+													if pc, ok := st2[j].(*ast.CallExpr); ok {
+														if pcal := callee(info, pc); pcal != nil && isLoggerMethod(pcal) {
+															logged = true
+														}
+														break
+													}
+												}
+												if !logged {
+													onlyLogged = false
+												}
+												return true
+											})
+										}
+									}
+								}
+								c.Check(onlyLogged, key, "a peer address that is used as a key (job registry, store, events) is built with net.JoinHostPort, like every other site", where, "host and peers port are combined by "+types.ExprString(call.Fun)+" and the result is used beyond logging: for an IPv6 host the key differs from the one the other sites compute")
+							}
+							break
+						}
+						return true
+					})
+				}
+			}
+		}
+		if n < 3 {
+			c.Undecided("address-key/count", "the sites that build a peers address from a PeerState are found", "-", fmt.Sprintf("found %d", n))
+		}
+	})
+
 	c.Rule("worker-death", func() {
 		ht := c.Func("actor", "relocator.handleTerminated")
 		f := c.NewFlow(ht)
@@ -230,4 +333,27 @@ func runC33(c *Ctx) {
 		w = af.ExitReachable(nil, af.CallTo(end, iEnd), nil, nil)
 		c.Check(w == nil, "abort-releases", "aborting always releases the job", c.P.Pos(ab.Decl.Pos()), af.describe(w))
 	})
+}
+
+func funcNameOfDecl(info *types.Info, fd *ast.FuncDecl) string {
+	if obj, ok := info.Defs[fd.Name].(*types.Func); ok {
+		return funcName(obj)
+	}
+	return fd.Name.Name
+}
+
+// isLoggerMethod: a method of the log.Logger interface (or an implementation) used for printing.
+func isLoggerMethod(f *types.Func) bool {
+	sig, _ := f.Type().(*types.Signature)
+	if sig == nil || sig.Recv() == nil || f.Pkg() == nil {
+		return false
+	}
+	if relPkg(f.Pkg().Path()) != "log" {
+		return false
+	}
+	switch f.Name() {
+	case "Debug", "Debugf", "Info", "Infof", "Warn", "Warnf", "Error", "Errorf", "Fatal", "Fatalf", "Panic", "Panicf":
+		return true
+	}
+	return false
 }
